@@ -438,7 +438,7 @@ def g94_cases(b, rng):
     if len(blocks) != len(els):
         return [('g94-harness-error', None, 'blocks %d vs elements %d' % (len(blocks), len(els)))]
     cases = []
-    pick = rng.sample(range(len(blocks)), min(3, len(blocks)))
+    pick = rng.sample(range(len(blocks)), min(1, len(blocks)))
     conv = lambda x: x.strip().replace('e', 'D').replace('E', 'D')
     for k in pick:
         block, (z, el) = blocks[k], els[k]
@@ -539,7 +539,7 @@ def g94_ecp_cases(b, rng):
         return [('g94-harness-error', None, 'ecp blocks %d vs elements %d' % (len(blocks), len(ecp_els)))]
     conv = lambda x: x.strip().replace('e', 'D').replace('E', 'D')
     cases = []
-    for k in rng.sample(range(len(blocks)), min(2, len(blocks))):
+    for k in rng.sample(range(len(blocks)), min(1, len(blocks))):
         block, (z, el) = blocks[k], ecp_els[k]
         pots = [dict(am=p['angular_momentum'][0], terms=[[str(r), conv(g), conv(c)] for r, g, c in zip(p['r_exponents'], p['gaussian_exponents'], p['coefficients'][0])])
                 for p in el['ecp_potentials']]
